@@ -69,6 +69,12 @@ def jobs(ctx):
     crowd = {"RandomInputHandler": {"number_of_root_nodes": 12}, "CuboidPeriodicCells": {"cells_per_side": "5, 5, 5"},
              "CoulombNearby": {"number_event_handlers": 14}, "CoulombSurplus": {"number_event_handlers": 14}}
     sel.append((base + "coulomb_atoms/cell_veto.ini", crowd))
+    # eight atoms with the all-pairs factor set (state that taggers carry across a dump, e.g. cached factor sets,
+    # must survive pickling with its iteration order) and a lattice-sum potential with NON-default Ewald parameters
+    # (a restored potential has to be rebuilt with the configured ones)
+    sel.append((base + "coulomb_atoms/power_bounded.ini",
+                {"RandomInputHandler": {"number_of_root_nodes": 8}, "Coulomb": {"number_event_handlers": 8},
+                 "MergedImageCoulombPotential": {"alpha": 3.45, "fourier_cutoff": 2, "position_cutoff": 1}}))
     if ctx.tier == "thorough":
         sel.append((base + "coulomb_atoms/cell_bounded.ini", dict(crowd, CoulombCellBounding={"number_event_handlers": 30})))
     return sel
